@@ -8,6 +8,8 @@ import (
 	"runtime"
 	"sort"
 	"strings"
+
+	"golang.org/x/tools/go/ssa"
 )
 
 func main() {
@@ -20,6 +22,8 @@ func main() {
 		cmdFn(os.Args[2:])
 	case "check":
 		cmdCheck(os.Args[2:])
+	case "calls":
+		cmdCalls(os.Args[2:])
 	default:
 		fmt.Fprintln(os.Stderr, "unknown command", os.Args[1])
 		os.Exit(2)
@@ -45,6 +49,7 @@ func cmdFn(args []string) {
 	dump := fs.String("dump", "", "dump the query of the obligation with this name")
 	only := fs.String("only", "", "only obligations containing this substring")
 	verbose := fs.Bool("v", false, "verbose")
+	trace := fs.Bool("calls", false, "print call ordinals while encoding")
 	why := fs.String("why", "", "print a model for the named failing obligation")
 	watch := fs.String("watch", "", "spec expressions (separated by ;) to evaluate in the model (-why)")
 	fs.Parse(args)
@@ -56,6 +61,7 @@ func cmdFn(args []string) {
 	if b, err := os.ReadFile(*verif + "/solver_hints.json"); err == nil {
 		json.Unmarshal(b, &solverHints)
 	}
+	e.traceCalls = *trace
 	if *watch != "" {
 		for _, w := range strings.Split(*watch, ";") {
 			e.watch = append(e.watch, strings.TrimSpace(w))
@@ -163,3 +169,44 @@ func matchAny(k string, pats []string) bool {
 	return false
 }
 
+
+// cmdCalls lists the callees of the named functions (development aid).
+func cmdCalls(args []string) {
+	e, err := load("/repo", "/verif", strings.Split(args[0], ","))
+	if err != nil {
+		fmt.Println(err)
+		os.Exit(2)
+	}
+	seen := map[string]int{}
+	for k, fn := range e.fnByKey {
+		if !matchAny(k, args[1:]) || len(fn.Blocks) == 0 {
+			continue
+		}
+		for _, b := range fn.Blocks {
+			for _, in := range b.Instrs {
+				if c, ok := in.(ssa.CallInstruction); ok {
+					cc := c.Common()
+					name := ""
+					if cc.IsInvoke() {
+						name = "iface " + ifaceKey(cc)
+					} else if sf := cc.StaticCallee(); sf != nil {
+						name = e.fnKey(sf)
+					} else {
+						name = "dynamic"
+					}
+					if e.contracts[name] == nil && e.ifaces[strings.TrimPrefix(name, "iface ")] == nil {
+						seen[name]++
+					}
+				}
+			}
+		}
+	}
+	var ks []string
+	for k := range seen {
+		ks = append(ks, k)
+	}
+	sort.Strings(ks)
+	for _, k := range ks {
+		fmt.Printf("%4d %s\n", seen[k], k)
+	}
+}
